@@ -263,7 +263,11 @@ def build_program(inp):
                     with cb.else_():
                         emit(s["else"])
     emit(inp["stmts"])
-    phase = lang.ExecutionPhase("primary", "primary", list(cb.statements))
+    stmts = list(cb.statements)
+    if inp.get("order") and len(inp["order"]) == len(stmts):
+        # the statement list of a phase is unordered (execution follows depends_on): present it in another order
+        stmts = [stmts[i] for i in inp["order"]]
+    phase = lang.ExecutionPhase("primary", "primary", stmts)
     return lang.DAGCode({"primary": phase}, "primary")
 
 
@@ -1069,6 +1073,19 @@ def bounded(payload):
     for st in SEED_PROGRAMS:
         consider({"part": "program", "stmts": st, "steps": 2})
         parts["fixed_programs"] += 1
+    # refinement chains: x gets a real and then a complex (or int and then real) value, copied down a chain;
+    # the phase's statement list is presented in every order, so the refinement needs several sweeps
+    import itertools
+    for first, second in ((C(2.5), ["*", V("x"), C([0.0, 1.0])]), (C(2), ["*", V("x"), C(0.5)]), (C(2), ["*", V("x"), C([0.0, 1.0])])):
+        chain = [{"k": "assign", "lhs": "x", "sub": None, "rhs": first, "loops": []},
+                 {"k": "assign", "lhs": "x", "sub": None, "rhs": second, "loops": []},
+                 {"k": "assign", "lhs": "y", "sub": None, "rhs": ["*", C(3), V("x")], "loops": []},
+                 {"k": "assign", "lhs": "z", "sub": None, "rhs": ["*", C(2), V("y")], "loops": []},
+                 {"k": "assign", "lhs": "w", "sub": None, "rhs": ["+", V("z"), C(1)], "loops": []}]
+        for n in (4, 5):
+            for perm in itertools.permutations(range(n)):
+                consider({"part": "program", "stmts": chain[:n], "steps": 1, "order": list(perm)})
+                parts["refinement_chain_orders"] += 1
     for _ in range(nprog):
         if time.time() > deadline:
             parts["random_tail_cut_by_wall_clock"] = 1
@@ -1091,7 +1108,8 @@ def bounded(payload):
                     "sorts (int, float, numpy float, complex, bool, real/int/complex arrays, real/complex user-type "
                     "values; column arguments from 6 values); 4-argument functions every %d-th tuple; non-trivial = "
                     "accepted by get_result_kinds(check=True) and the implementation returned. (ii) %d fixed "
-                    "one-operator programs and seeded random CodeBuilder programs (2-8 statements incl. if/else, "
+                    "one-operator programs, 3 refinement chains (x real then complex / int then real, copied down 2-3 links) "
+                    "with the phase's statement list presented in all 24 / 120 orders, and seeded random CodeBuilder programs (2-8 statements incl. if/else, "
                     "loops, subscripted assignments, re-assignments; expressions of depth <=2 over + - * / ** < "
                     "min max, subscripts, built-ins, registered right-hand side and fixed-kind functions), kept when "
                     "infer_kinds succeeds; each executed for 2 steps statement by statement with the real "
